@@ -53,6 +53,13 @@ def cases(draw, tier):
         shape = (a_, b_) if draw(st.booleans()) else (b_, a_)
     spec = draw(gen.table_specs(tier, values=values, md=True, history=True,
                                 shape=shape))
+    if values == "count" and what in ("transform", "rankdata", "pa") and \
+            draw(st.integers(0, 2)) == 0:
+        # a rarefied table: counts drawn down to a few per vector right
+        # before the operation (cells emptied by the draw are zero cells)
+        spec["history"] = spec["history"] + [{
+            "op": "subsample", "axis": draw(ops.AX),
+            "n": draw(st.integers(1, 4)), "seed": draw(st.integers(0, 99))}]
     case = {"table": spec, "what": what, "axis": draw(ops.AX),
             "inplace": draw(st.booleans()),
             # the flag as a numpy boolean (true/false, but not True/False)
